@@ -5,6 +5,7 @@ import (
 	"fmt"
 	"os"
 	"path/filepath"
+	"reflect"
 	"strconv"
 	"testing"
 	"time"
@@ -259,6 +260,15 @@ func TestTransactionDB(t *testing.T) {
 	if s, _ := tdb.Get(ro, []byte("cnt")); string(s.Data()) != "15" {
 		t.Fatal("merge")
 	}
+
+	// like the opaque cgo handles, any two transactions are DeepEqual
+	a, b := tdb.TransactionBegin(wo, to, nil), tdb.TransactionBegin(wo, to, nil)
+	mustNil(t, a.Put([]byte("zz"), []byte("1")))
+	if a == b || !reflect.DeepEqual(a, b) {
+		t.Fatal("transactions must be distinct but DeepEqual")
+	}
+	a.Destroy()
+	b.Destroy()
 
 	// pessimistic locking: second writer times out
 	to2 := NewDefaultTransactionOptions()
